@@ -19,7 +19,7 @@ RAISE_KINDS = {'StubError': StubError, 'TypeError': TypeError, 'ValueError': Val
 
 
 XS = [1, 2, -3, 4, 5, 6]                 # the x values of the normal bindings, in key-class order
-REAL = {1: 1010, 2: 2.5, -3: 'neg three', 4: None, 5: 1050, 6: 'six'}   # scalars: the sqlite fallback stores nothing else
+REAL = {1: 1010, 2: 0, -3: 'neg three', 4: None, 5: 2.5, 6: ''}       # (falsy results on purpose: None, 0, '')   # scalars: the sqlite fallback stores nothing else
 
 
 def _value(x, y):
